@@ -12,7 +12,7 @@ p = os.path.join(engine.VERIF if hasattr(engine, 'VERIF') else os.path.join(os.p
 t = json.load(open(p))
 groups = {k: v for k, v in t['_groups'].items() if k not in siteguard.GROUP_PRED}      # hand-listed groups (C05, C12) are kept
 for pid in siteguard.GROUP_PRED:
-    groups[pid] = siteguard.group_functions(F, pid)
+    groups[pid] = siteguard.group_functions(F, pid, cg)
 fns = sorted({f for g in groups.values() for f in g})
 new = {'_groups': groups}
 new.update(siteguard.collect(F, cg, fns))
